@@ -43,7 +43,8 @@ REQUIRED_BUCKETS = {"quick": ["op:call_kernel", "op:call_Fq", "op:direct", "op:s
                               "op:release_model", "op:reload", "shared_kernel_interleaving", "toggle:dispersity",
                               "toggle:magnetic", "repeat_identical", "big_then_small", "empty_or_one_point_mesh",
                               "python_model", "composite_model", "q_shares_one_axis_with_previous",
-                              "q_shares_first_point_with_previous", "reff_mode_on_then_off", "lane:asan"]}
+                              "q_shares_first_point_with_previous", "reff_mode_on_then_off", "lane:asan",
+                              "op:other_precision", "op:keyword2d", "op:keyword1d", "op:direct2d"]}
 REQUIRED_BUCKETS["thorough"] = REQUIRED_BUCKETS["quick"]
 
 HERE = os.path.dirname(os.path.abspath(__file__))
@@ -259,6 +260,18 @@ def requests():
         array={"par": "radius", "values": [30.0, 38.5, 44.0, 51.25, 60.0], "weights": [0.7, 1.9, 3.3, 2.1, 0.6]})
     add("cylinder/sasview-array", model="cylinder", q=Q3, via="sasview", pars=cyl,
         array={"par": "length", "values": [250.0, 300.0, 333.0, 410.0], "weights": [1.0, 3.0, 3.0, 1.7]})
+    # answers in the subnormal range of double precision (below 2.2e-308)
+    add("guinier/subnormal", model="guinier", q=[0.29, 0.30, 0.31], pars={"rg": 150.0, "scale": 1.0, "background": 0.0})
+    add("sphere/tiny-scale", model="sphere", q=Q3, pars=dict(sph, scale=3e-312, background=0.0))
+    # keyword helpers and a calculator on a 2-D data object, with the caller's own coordinate and resolution arrays
+    # (no pixel excluded; one of the two widths zero, or zero in one pixel)
+    add("sphere/Iqxy-res", model="sphere", q=QXY, via="keyword2d", pars=sph,
+        dqx=[0.004, 0.005, 0.003, 0.006, 0.004], dqy=[0.0, 0.0, 0.0, 0.0, 0.0])
+    add("cylinder/Iqxy-res", model="cylinder", q=QXY, via="keyword2d", pars=dict(cyl, theta=40.0, phi=25.0),
+        dqx=[0.004, 0.0, 0.003, 0.006, 0.004], dqy=[0.002, 0.003, 0.0, 0.001, 0.002])
+    add("sphere/Iq-res", model="sphere", q=Q7, via="keyword1d", pars=sph, dqa=[0.001, 0.0, 0.002, 0.004, 0.0, 0.01, 0.02])
+    add("sphere/direct2d-res", model="sphere", q=QXY, via="direct2d", pars=sph,
+        dqx=[0.004, 0.005, 0.003, 0.006, 0.004], dqy=[0.0, 0.0, 0.0, 0.0, 0.0])
     cp = {"radius": 33.0, "thickness": 8.0, "scale": 0.9, "background": 0.3}
     add("cplug/sasview", model="CPLUGIN", q=Q3, via="sasview", pars=cp)
     add("cplug/mono", model="CPLUGIN", q=Q3, pars=cp)
@@ -347,6 +360,27 @@ def evaluate(state, req, snapshots=None, keep=None):
                 d = sdata.empty_data1D(qa, resolution=float(req.get("dq") or 0.0))
             state.direct[key] = direct_model.DirectModel(d, state.model(name), cutoff=req["cutoff"])
         res = state.direct[key](**pars)
+    elif via in ("keyword2d", "keyword1d", "direct2d"):
+        # the caller's arrays live as long as the process state, like a user's data would
+        key = ("arrays", via, name, json.dumps(q))
+        if key not in state.arrays:
+            if via == "keyword1d":
+                state.arrays[key] = [np.array(q, float), np.array(req["dqa"], float)]
+            else:
+                state.arrays[key] = [np.array(q[0], float), np.array(q[1], float), np.array(req["dqx"], float),
+                                     np.array(req["dqy"], float)]
+        arrs = state.arrays[key]
+        a_before = [a.copy() for a in arrs]
+        if via == "keyword2d":
+            res = direct_model.Iqxy(name, arrs[0], arrs[1], dqx=arrs[2], dqy=arrs[3], **pars)
+        elif via == "keyword1d":
+            res = direct_model.Iq(name, arrs[0], dq=arrs[1], **pars)
+        else:
+            d2 = sdata.Data2D(x=arrs[0], y=arrs[1], dx=arrs[2], dy=arrs[3])
+            res = direct_model.DirectModel(d2, state.model(name), cutoff=req["cutoff"])(**pars)
+        if snapshots is not None:
+            snapshots.append(("caller's coordinate and resolution arrays", [a.tolist() for a in a_before],
+                              [a.tolist() for a in arrs]))
     elif via == "sasview":
         if name not in state.sasview:
             if name == "PLUGIN":
@@ -511,6 +545,11 @@ def gen_history(rng, reqs, h):
             ["eval", "cplug/sasview"], ["eval", "sphere/sasview-array"], ["eval", "sphere/sasview-array"],
             ["eval", "sphere/sasview"], ["eval", "sphere/sasview-array"], ["eval", "cylinder/sasview-array"],
             ["eval", "cylinder/sasview-array"]]
+    # someone in this process evaluates a model in single precision in between (sascomp -single!); requests whose
+    # answers are subnormal doubles before and after it; the keyword helpers with the caller's own arrays
+    ops += [["eval", "guinier/subnormal"], ["other_precision", ["sphere", "guinier", "cylinder"][h % 3]], ["eval", "guinier/subnormal"],
+            ["eval", "sphere/tiny-scale"], ["eval", "sphere/Iqxy-res"], ["eval", "sphere/Iqxy-res"], ["eval", "cylinder/Iqxy-res"],
+            ["eval", "sphere/Iq-res"], ["eval", "sphere/direct2d-res"], ["eval", "sphere/direct2d-res"]]
     if h % 2:
         ops += [["release_kernel", "cylinder"], ["eval", "cylinder/2d-samex"], ["eval", "cylinder/2d"],
                 ["eval", "cylinder/2d-samey"], ["release_model", "PLUGIN"], ["eval", "py/2d"], ["eval", "py/2d-samex"]]
@@ -644,6 +683,13 @@ def run_history(case, rec):
             st.models.pop(arg, None)
             st.direct = {k: v for k, v in st.direct.items() if k[0] != arg}
             st.sasview.pop(arg, None)
+            after_release = True
+        elif op == "other_precision":
+            from sasmodels import core as sascore, direct_model
+            m_ = sascore.load_model(arg, dtype="single", platform="dll")
+            k_ = m_.make_kernel([np.array([0.02, 0.2])])
+            direct_model.call_kernel(k_, {})
+            k_.release()
             after_release = True
         elif op == "clone":
             req = reqs[arg]
